@@ -48,6 +48,7 @@ type Step struct {
 	B  int    `json:"b,omitempty"`
 	C  int    `json:"c,omitempty"`
 	N  uint64 `json:"n,omitempty"`
+	T  int64  `json:"t,omitempty"` // seconds relative to the time of the block the step executes in (htlc.htlt)
 }
 
 type History struct {
@@ -57,6 +58,9 @@ type History struct {
 	// advance time by 400 s (so that block-time age of a feed value crosses 5 minutes too).
 	Dt      int
 	BigDtAt int
+	// Family "htlt" (clock stream): the history probes time-window edges with inputs placed relative to
+	// the HOST clock at the start of replica A; the pair is scheduled around them (execReplicas).
+	Family string `json:",omitempty"`
 }
 
 // ---------------------------------------------------------------------------------------------
@@ -270,6 +274,9 @@ func gen(r *lib.Rand, tier, stream string, i int) History {
 
 // genHistoryIdx: every third case of a replica stream is a history of the service-stress family.
 func genHistoryIdx(r *lib.Rand, tier, stream string, i int) History {
+	if stream == "clock" && i%3 == 1 {
+		return genClockWindows(r, tier)
+	}
 	if i%3 == 2 {
 		return genServiceStress(r, tier, stream)
 	}
@@ -349,6 +356,28 @@ func execReplicas(h History) lib.Case {
 		a = runReplica(h, replicaOpts{Start: start, Exports: 1})
 		b = runReplica(h, replicaOpts{Start: start, Exports: 1, Restart: true})
 	case "clock":
+		if h.Family == "htlt" {
+			// Window-edge probes: the history's time inputs are T = -d+4 and T = +d+4 seconds relative to
+			// the first block's time s, for every duration constant d the translator found.  Block times
+			// are identical in both replicas (s = host now, truncated).  Replica A runs at once (host
+			// clock < s+4), replica B after s+6.2: code that measures the window from the HOST clock
+			// instead of the block time decides differently in the two replicas; code that uses the block
+			// time cannot.
+			s := time.Now().Truncate(time.Second)
+			a = runReplica(h, replicaOpts{Start: s, Exports: 1})
+			if a.FirstBlockDone.IsZero() || a.FirstBlockDone.After(s.Add(3900*time.Millisecond)) {
+				lib.Stat(c.Stats, "clock:window-missed-margin") // too slow: still a valid agreement case
+			} else {
+				lib.Stat(c.Stats, "clock:window-straddled")
+			}
+			if w := time.Until(s.Add(6200 * time.Millisecond)); w > 0 {
+				time.Sleep(w)
+			}
+			b = runReplica(h, replicaOpts{Start: s, Exports: 1})
+			c.Steps = append(c.Steps, fmt.Sprintf("replica A executed the first block %.1fs after the block time, replica B %.1fs after it",
+				a.FirstBlockDone.Sub(s).Seconds(), b.FirstBlockDone.Sub(s).Seconds()))
+			break
+		}
 		// dry run: where (relative to the start time) is the newest value of the price feed stamped?
 		dry := runReplica(h, replicaOpts{Start: start, Exports: 1})
 		if dry.FeedTS == 0 {
@@ -447,6 +476,33 @@ func clockThreshold() time.Duration {
 		}
 	}
 	return thr
+}
+
+// clockDurations: every duration constant (seconds) the translator found in the analysed code, plus
+// the two of the HTLT admission window (kept when the code no longer mentions them), at most eight.
+func clockDurations() []int64 {
+	set := map[int64]bool{900: true, 1800: true}
+	if bz, err := os.ReadFile(graphJSON()); err == nil {
+		var o struct {
+			Thresholds []cgThreshold `json:"thresholds"`
+		}
+		if json.Unmarshal(bz, &o) == nil {
+			for _, t := range o.Thresholds {
+				if t.Seconds >= 30 && t.Seconds <= 6*3600 {
+					set[int64(t.Seconds)] = true
+				}
+			}
+		}
+	}
+	var ds []int64
+	for d := range set {
+		ds = append(ds, d)
+	}
+	sort.Slice(ds, func(i, j int) bool { return ds[i] < ds[j] })
+	if len(ds) > 8 {
+		ds = ds[:8]
+	}
+	return ds
 }
 
 func showCmd(args []string) {
